@@ -509,6 +509,17 @@ class World:
                              "constraint function called with a point outside the hard bounds",
                              x=row, phase=self.cur_phase())
             out[i] = self.violation_fn(row)
+        gate = (self.scn.get("cons") or {}).get("gate")
+        if gate and self.phase == "search":
+            # scripted-outcome constraint (environment adversary, like the scripted target): in the search steps the
+            # script marks with 'R' every candidate batch is reported infeasible, so the search step sees an empty
+            # candidate set. It only ever *adds* rejections: the region oracle of C02 stays sound.
+            sc = gate["script"]
+            i = self.n_searches - 1
+            sym = sc[i] if i < len(sc) else gate.get("tail", "R")
+            if sym == "R":
+                out = np.maximum(out, 1.0)
+                self.probe("gate_rejected_batch")
         self.ev("cons_call", X.shape[0], X, out)
         mode = (self.scn.get("cons") or {}).get("ret", "float")
         if mode == "bool":
